@@ -11,7 +11,7 @@ TECH = "Rocq theorem over an executable model + differential correspondence with
 # id -> (level text, level note)   ; absent => not_applicable with REASON
 CLAIMED = {
  "C01": (
-  "Coq theorems (coq/Properties/C01.v, 15 pinned, axiom-free) over an executable pointer machine that mirrors add_bytes / remove_bytes / every "
+  "Coq theorems (coq/Properties/C01.v, 28 pinned, axiom-free, coqchk: Axioms <none>) over an executable pointer machine that mirrors add_bytes / remove_bytes / every "
   "resize_notification / every container operation line by line (memory as the whole allocation, pointer trees mirroring every Rust "
   "Ptr type incl. UnsizedList's inner_exclusive / possible_mut_borrow / range). PROVED for EVERY enum-free shape - structs, lists of any "
   "element type / prefix width, trailing RemainingBytes, lists and maps of unsized elements nested to any depth - every well-formed value, "
@@ -22,15 +22,19 @@ CLAIMED = {
   "raw bytes, fresh parse, re-borrow - equals the owned model (C01_general_step_refines / _run_refines / _observable / _reborrow / "
   "_descent; non-vacuity by a vm_compute'd nested history). The same for the FULL operation set (C01_all_ops_step_refines / "
   "_run_refines): in-place stores, RemainingBytes::set_len, and the element-level operations of lists of unsized elements - insert of "
-  "default-initialised elements, remove_range, clear - with their offset-table surgery. C01_dispatcher_tie proves that the dispatcher the "
-  "extracted runner executes returns what descent + operation return. The flat-shape theorems of the first round remain as the special "
-  "case. Keyed insertion through the Map / Set / UnsizedMap views, String, non-default initializers, whole-value replacement and enums are "
-  "tied by correspondence: 1.5k (quick) / 40k (thorough) generated histories on 21 Rust shapes nested to "
+  "default-initialised elements, remove_range, clear - with their offset-table surgery. The keyed views (Set / Map insert, overwrite and remove through the binary search; UnsizedMap insert of a new key and "
+  "remove) refine the sorted-association-list model and keep the keys strictly ascending (C01_keyed_*); whole-value replacement "
+  "(set_from_owned) refines assignment for every sub-value whose chain of first fields ends in a non-struct (C01_set_data_refines). "
+  "All of it is folded into ONE history theorem, C01_full_run_refines (any interleaving of all these operations, with the keyed "
+  "operations' observations), and C01_keyed_views_stay_sorted. "
+  "C01_dispatcher_tie / _all_ops prove that the dispatcher the extracted runner executes returns what descent + operation return. The "
+  "flat-shape theorems of the first round remain as the special case. UnsizedMap insert on an existing key, UnsizedString, non-default and "
+  "failing initializers and enums are tied by correspondence: 1.5k (quick) / 40k (thorough) generated histories on 21 Rust shapes nested to "
   "depth 3 run through the real ExclusiveWrapper API and the extracted machine (0 disagreements), judged against an independent "
   "plain-Vec/BTreeMap oracle in Python.",
-  "PARTIAL (stated in Properties/C01.v): the keyed views (Map / Set / UnsizedMap: binary search then insert), UnsizedString, non-default "
-  "initializers and whole-value replacement (set_from_owned / set_from_init) are in the machine and the correspondence but have no "
-  "refinement theorem; enums are in the encode/parse universe (C04/C05) but neither in the operations harness nor in the refinement. Found and fixed D7 (stale inner pointer not "
+  "PARTIAL (stated in Properties/C01.v): UnsizedMap insert on an existing key (element replaced through set_from_init), UnsizedString, "
+  "non-default initializers and the failing-initializer paths (D16) are in the machine and the correspondence but have no refinement "
+  "theorem; enums are in the encode/parse universe (C04/C05) but neither in the operations harness nor in the refinement. Found and fixed D7 (stale inner pointer not "
   "shifted), D18 (empty trailing RemainingBytes at full capacity: found while proving the flat pointer assertions) and D26 (a STALE "
   "recorded inner pointer took part in check_pointers and could be shifted out of the allocation: found while stating the general "
   "layout invariant); known finding D16 (failing initializer after the resize)."),
@@ -65,14 +69,15 @@ CLAIMED = {
   "range, length prefix, growth beyond the allowance, growth refused by the data access - is returned with the owned model's code before "
   "any write; the state reached by the descent still represents the same value with canonical bytes and exact length; histories with "
   "failures in them keep refining the owned model step by step (C06_general_failure_is_clean, C06_general_continue_after_failures; "
-  "flat-shape theorems as the special case). Tie: 1.8k (quick) / 40k (thorough) histories with growth refused during step k (k swept "
+  "C06_all_ops_failure_is_clean for the full operation set incl. element-level insert / remove of lists of unsized elements, whose "
+  "checks all precede the first write; flat-shape theorems as the special case). Tie: 1.8k (quick) / 40k (thorough) histories with growth refused during step k (k swept "
   "over every step of 21 growth-heavy histories) and a generator biased to failing operations; after a failed operation bytes, length, "
   "live accessors and a fresh parse are observed and further operations applied; model, implementation and the plain oracle must agree. "
   "Second stage on native pinocchio accounts where AccountInfo::resize_unchecked itself refuses the growth.",
   "Known finding D16 (not repaired: not a small safe patch): an element initializer that fails (array longer than the list's "
   "length prefix allows) runs after the container was resized (UnsizedList::insert_all_with_offsets, set_data_inner): the error "
   "leaves a modified value / non-canonical bytes. The check prints KNOWN-FINDING for that class and reports any other violation. "
-  "Element-level operations of lists of unsized elements: atomicity by correspondence only."),
+  "Keyed views and whole-value replacement: failure atomicity by correspondence only."),
  "C04": (
   "Coq theorems (coq/Properties/C04.v, axiom-free) over the model of UnsizedType::get_ptr / owned_from_ptr for the whole "
   "inductive universe of shapes (fixed-size checked values, lists with any prefix width, trailing bytes, lists and maps of "
